@@ -125,7 +125,9 @@ func RunUTF8(c UTF8Case) error {
 	fp := cov.FP([]byte(sig), text)
 	if depth >= 2 || c.AtEnd {
 		rec.NonTrivial(fp)
-		rec.Sample(fp, func() any { return map[string]any{"type": sig, "text": fmt.Sprintf("%q", text), "sanitised": string(san)} })
+		rec.Sample(fp, func() any {
+			return map[string]any{"type": sig, "text": fmt.Sprintf("%q", text), "sanitised": string(san)}
+		})
 	}
 	if bytes.HasPrefix(c.Frag, []byte(`\u`)) {
 		rec.Class("lone-surrogate-escape")
